@@ -361,6 +361,14 @@ def run_impl(case):
                 with np.load(buf, allow_pickle=True) as z:
                     raw = {k: z[k] for k in z.files}
             store = ArrayStore.from_raw_dict(raw)
+            # a second store rebuilt from the SAME raw dict is then modified: the two must be independent
+            sib = ArrayStore.from_raw_dict(raw)
+            if sib.capacity:
+                try:
+                    sib.add([0, sib.capacity - 1], {n: enc_col(s_, d_, [999983, 999979]) for n, s_, d_ in layout}, {}, [])
+                except Exception:  # noqa
+                    pass
+            sib.clear()
         elif op[0] == "raw":
             s2 = ArrayStore.from_raw_dict(store.as_raw_dict())
             mops.append([7])
